@@ -135,7 +135,7 @@ func (ch c19) server(cfg c19cfg) *hs.Env {
 		// a second, different hook option registered behind it must not take its place
 		opts = append(opts, wire.CloseConn(func(ctx context.Context) error { return nil }))
 	}
-	opts = append(opts, wire.GlobalParameters(wire.Parameters{"application_name": "verif"}))
+	opts = append(opts, wire.GlobalParameters(wire.Parameters{"application_name": "verif", "search_path": "tenant_7, public", "tenant.region": "eu-west", "datestyle": "ISO, DMY", "crdb_version": "verif 1.0"}))
 	check := func(ctx context.Context, where string) {
 		st := hs.ConnOf(ctx).User.(*c19conn)
 		if ctx.Err() != nil {
@@ -150,7 +150,7 @@ func (ch c19) server(cfg c19cfg) *hs.Env {
 		if cp := wire.ClientParameters(ctx); cp["user"] != user || cp["database"] != db || cp["options"] != "" || cp["application_name"] != "" || len(cp) != 4 {
 			st.problems = append(st.problems, fmt.Sprintf("%s: client parameters in the command context are %v, sent: options=\"\" user=%s application_name=\"\" database=%s", where, cp, user, db))
 		}
-		if sp := wire.ServerParameters(ctx); sp["application_name"] != "verif" || sp["server_encoding"] != "UTF8" {
+		if sp := wire.ServerParameters(ctx); sp["application_name"] != "verif" || sp["server_encoding"] != "UTF8" || sp["search_path"] != "tenant_7, public" || sp["tenant.region"] != "eu-west" || sp["datestyle"] != "ISO, DMY" || sp["crdb_version"] != "verif 1.0" {
 			st.problems = append(st.problems, where+": server parameters missing from the command context")
 		} else if sa := sp["session_authorization"]; sa != user {
 			st.problems = append(st.problems, fmt.Sprintf("%s: session_authorization in this connection's context is %q, the connection belongs to %q", where, sa, user))
